@@ -84,14 +84,9 @@ func verbatimStream(r *Run) {
 		mine := r.Mine()
 		pre, post := text(), text()
 		switch k % 5 {
-		case 0: // raw body verbatim — the body must not contain an endraw tag, nor a `{{` that could pair with a later `}}`
+		case 0: // raw body verbatim — ANY body without an endraw tag: unclosed and unbalanced delimiters included (since
+			// the repair raw-comment-lexical the tokenizer does not look inside the body)
 			b := body(5, "endraw")
-			// the tokenizer may pair a `{{` inside the body with a `}}` after the endraw tag (a fact about the tokenizer,
-			// not the raw block): keep `post` free of closers, and the body free of an unclosed opener at its end
-			post = strings.NewReplacer("}", "", "%", "").Replace(post)
-			if strings.Count(b, "{{") != strings.Count(b, "}}") || strings.Count(b, "{%") != strings.Count(b, "%}") {
-				b = strings.NewReplacer("{{", "", "}}", "", "{%", "", "%}", "").Replace(b)
-			}
 			open := g.Pick([]string{"{% raw %}", "{%raw%}", "{% raw  %}"})
 			src := pre + open + b + "{% endraw %}" + post
 			if !mine {
@@ -103,10 +98,6 @@ func verbatimStream(r *Run) {
 			}
 		case 1: // comment contributes nothing and is never evaluated (syntax errors, unknown tags, unbalanced blocks inside)
 			b := body(5, "endcomment")
-			post = strings.NewReplacer("}", "", "%", "").Replace(post)
-			if strings.Count(b, "{{") != strings.Count(b, "}}") || strings.Count(b, "{%") != strings.Count(b, "%}") {
-				b = strings.NewReplacer("{{", "", "}}", "", "{%", "", "%}", "").Replace(b)
-			}
 			src := pre + "{% comment %}" + b + "{% endcomment %}" + post
 			if !mine {
 				continue
@@ -117,28 +108,8 @@ func verbatimStream(r *Run) {
 			}
 		case 4: // several raw and comment blocks in one template, in any order, with text between them
 			var src, want strings.Builder
+			// the text between blocks holds no delimiter bytes (it is not the subject here); the bodies are arbitrary
 			safe := func(t string) string { return strings.NewReplacer("}", "", "%", "", "{", "").Replace(t) }
-			// bodies of complete tokens only: with several blocks in one template a lone `{{` (or `{{}}`, which is no
-			// object) would pair with a `}}` of a later block, a fact about the tokenizer and not about raw/comment
-			var whole []string
-			for _, b := range tagLikeBits {
-				nd := strings.Count(b, "{{") + strings.Count(b, "}}") + strings.Count(b, "{%") + strings.Count(b, "%}")
-				if nd == 0 && !strings.ContainsAny(b, "{}%") || nd == 2 && len(b) > 4 &&
-					(strings.HasPrefix(b, "{{") && strings.HasSuffix(b, "}}") || strings.HasPrefix(b, "{%") && strings.HasSuffix(b, "%}")) {
-					whole = append(whole, b)
-				}
-			}
-			body := func(maxBits int, forbid string) string {
-				for {
-					var sb strings.Builder
-					for i, n := 0, g.Intn(maxBits+1); i < n; i++ {
-						sb.WriteString(g.Pick(whole))
-					}
-					if !strings.Contains(sb.String(), forbid) {
-						return sb.String()
-					}
-				}
-			}
 			for i, m := 0, 2+g.Intn(3); i < m; i++ {
 				t := safe(text())
 				src.WriteString(t)
@@ -205,11 +176,12 @@ func verbatimStream(r *Run) {
 	}
 }
 
-// rawClause names a failure of the raw / comment oracle. The tokenizer runs before the block parser knows that it
-// is inside a raw or comment block, so an opening delimiter in the body that is not closed inside the body takes the
-// end tag for its own closing delimiter ("{% raw %}{% b {% endraw %}": one tag named b with the arguments
-// "{% endraw"), and the block is reported as unterminated. That deviation is recorded in known_findings.json under
-// its own clause; anything else that goes wrong with a raw or comment body keeps the general clause.
+// rawClause names a failure of the raw / comment oracle. Before the repair raw-comment-lexical the tokenizer ran over the
+// whole source before the block parser knew that it was inside a raw or comment block, so an opening delimiter in the
+// body that was not closed inside the body took the end tag for its own closing delimiter ("{% raw %}{% b {% endraw %}":
+// one tag named b with the arguments "{% endraw"), and the block was reported as unterminated. On a tree without the
+// repair such a failure is still classified under its own clause (known_findings.json: fixed); anything else that goes
+// wrong with a raw or comment body keeps the general clause.
 func rawClause(general, body, endName string) string {
 	if swallowsEndTag(body, endName) {
 		return general + ":unclosed-delimiter-in-body"
@@ -231,8 +203,8 @@ func swallowsEndTag(body, endName string) bool {
 	return !found
 }
 
-// verbatimUnclosedDelimiterFamily: the recorded deviation, run on every check with fixed inputs so that it is
-// printed as KNOWN-FINDING while it persists (and is missed by nobody when it is repaired).
+// verbatimUnclosedDelimiterFamily: the former deviation (repaired by raw-comment-lexical), run on every check with
+// fixed inputs: every one of these bodies must now be emitted exactly (raw) resp. contribute nothing (comment).
 func verbatimUnclosedDelimiterFamily(r *Run, run func(src string, env map[string]*V, kind string) (string, string), out func(string) (string, bool)) {
 	env := map[string]*V{"x": VStr("X")}
 	for _, c := range []struct{ open, body, end, general string }{
@@ -240,6 +212,8 @@ func verbatimUnclosedDelimiterFamily(r *Run, run func(src string, env map[string
 		{"{% raw %}", "a {{ x ", "endraw", "raw-body-emitted-exactly"},
 		{"{% raw %}", "%}\t{%b c{{- x -}}", "endraw", "raw-body-emitted-exactly"},
 		{"{% comment %}", "{% if ", "endcomment", "comment-contributes-nothing"},
+		{"{%- raw -%}", "{{", "endraw", "raw-body-emitted-exactly"},
+		{"{% comment %}", "{{ | }} {% endraw %}{% raw %}{{", "endcomment", "comment-contributes-nothing"},
 	} {
 		src := "p" + c.open + c.body + "{% " + c.end + " %}q"
 		want := "pq"
